@@ -622,7 +622,24 @@ impl<'a> Run<'a> {
         });
         let waker = task_waker(id);
         let mut cx = Context::from_waker(&waker);
-        let out = self.subj.as_mut().unwrap().poll(&mut cx);
+        let subj = self.subj.as_mut().unwrap();
+        let out = match std::panic::catch_unwind(std::panic::AssertUnwindSafe(|| subj.poll(&mut cx))) {
+            Ok(o) => o,
+            Err(e) => {
+                if e.downcast_ref::<ChildPanic>().is_some() {
+                    // a child panicked and the unwinding went through the crate: the caller catches it
+                    // (like a runtime would) and carries on; the poll told us nothing
+                    w(|w| {
+                        w.cpoll_depth = 0;
+                        w.last_poll_pending = false;
+                        w.logf(|| "  -> (unwound: a child panicked)".to_string());
+                    });
+                    self.last_out_kind = 8;
+                    return;
+                }
+                std::panic::resume_unwind(e)
+            }
+        };
         w(|w| {
             w.cpoll_depth = 0;
             w.last_poll_pending = matches!(out, PollOut::Pending);
@@ -646,6 +663,10 @@ impl<'a> Run<'a> {
                         format!("child {} completed during this poll but had not been dropped when the poll returned", id),
                     );
                 }
+            }
+            if w.z_drops < w.z_completed {
+                let (c, d) = (w.z_completed, w.z_drops);
+                w.violate("C05", "finished-zero-sized-child-not-released", format!("{} zero-sized children have completed but only {} drops of zero-sized children were observed when the poll returned", c, d));
             }
             let held = w.held() as u64;
             let cp = w.cpoll_id;
